@@ -10,13 +10,13 @@ from checks import rfacommon as RC
 from checks import weaverops as WO
 
 PROPERTY = "C08"
-RULE = ("all sequences of the 19 concrete domain operations (10 kinds: append F/T, shift_x/y, scale_x/y, normalize_x/y, "
-        "repeat 2/3, truncate_by_value x4, truncate_by_index x2) up to the depth bound from 5 initial series; in every "
+RULE = ("all sequences of the 20 concrete domain operations (10 kinds: append F/T, shift_x +1/-2.5/+5e6, shift_y, scale_x/y, "
+        "normalize_x/y, repeat 2/3, truncate_by_value x4, truncate_by_index x2) up to the depth bound from 5 initial series; in every "
         "state: working == reference (bytes) == exact model of the transformed original; each reshaping operation once "
         "(reference bytes-unchanged); recreate+match tail against the transformed averages; shift/scale commuting with "
         "the pipeline. Signature = digest of the canonical state; non-trivial = state differs from the initial one")
 ASSUMPTIONS = ["truncation bounds are chosen strictly between samples (on-sample bounds are C11's subject)",
-               "model in exact rationals, comparison 1e-9 relative", "length cap %d samples" % WO.LEN_CAP,
+               "model in exact rationals; comparison 1e-9 relative plus a running bound on the rounding error of each axis (ulp of the largest magnitude reached, propagated through scalings and normalisations)", "length cap %d samples" % WO.LEN_CAP,
                "quick: the tail runs one (strategy, n, rule) per state, rotating over all 24 combinations; thorough: all"]
 ANCHORS = {"weaver.py": [(64, 79), (273, 276), (510, 514), (580, 582), (753, 756), (778, 781), (807, 809), (835, 837),
                          (866, 869), (898, 901), (943, 948), (984, 988)]}
